@@ -19,7 +19,7 @@ from mc import core, pd
 
 ID = 'C08'
 LEVEL = 'fault_enumeration'
-RULE = ('(1) every token string <= N over a 38-token markup alphabet, joined without separator, x docformat x process-types x object kind, '
+RULE = ('(1) every token string <= N over a 46-token markup alphabet, joined without separator, x docformat x process-types x object kind, '
         'rendered through format_docstring / format_summary / format_toc on a real System; (2) every (injection site x exception type x docformat x '
         'process-types) fault; a case is non-trivial when the parser or a renderer gave up, reported an error, or a fault was actually reached; '
         'distinct_nontrivial counts distinct (docformat, docstring) with an error/give-up outcome plus distinct reached (site, exception, format) faults')
@@ -29,8 +29,8 @@ ASSUMPTIONS = [
     'which inputs count as errors, the wording of messages and the content of summaries are not judged',
 ]
 FLOOR = {'quick': 2000, 'thorough': 10000}
-SPACE = {'quick': 'token strings <= 3 over the 16 most interaction-prone tokens x 5 formats (function); <= 2 over all 38 tokens x 5 formats x {off,on} x 5 object kinds; faults: 29 sites x 4 exceptions x 5 formats x {off,on}',
-         'thorough': 'quick + token strings <= 3 over all 38 tokens x 5 formats, also with process-types on (epytext, reST); <= 4 over the 16-token subset'}
+SPACE = {'quick': 'token strings <= 3 over the 16 most interaction-prone tokens x 5 formats (function); <= 2 over all 46 tokens x 5 formats x {off,on} x 5 object kinds; faults: 35 sites x 5 exceptions x 5 formats x {off,on}',
+         'thorough': 'quick + token strings <= 3 over all 46 tokens x 5 formats, also with process-types on (epytext, reST); <= 4 over the 16-token subset'}
 JOB_TIMEOUT = 2300
 CAP = {'quick': 300.0, 'thorough': 2400.0}
 
@@ -39,8 +39,10 @@ LONGH = _LT + '\n' + '=' * len(_LT) + '\n\n'
 LONGSUB = _LT + '\n' + '-' * len(_LT) + '\n\n'
 INDENTED_FIELD = '\n\n  @param a: w\n\n'
 T = ['w', '\n\n', '\n  ', '\n    ', 'L{', '}', 'B{', 'C{', 'U{', 'E{', '@param a:', '@type a:', '@foo', ':param a:', ':type a:', '- ', '1. ', '::', '>>> ', '`', '``', 'Title\n=====\n\n', LONGH, LONGSUB, INDENTED_FIELD,
-     '*', '|', '_', '<a&"', 'Args:', 'Returns\n-------', '.. note::', '.. code::', '\x00', '\x0b', '\udc80', '\uffff', '\\', '=====', '\xa0', '\r', '@ivar v:']
-T16 = ['w', '\n\n', '\n  ', 'L{', '}', 'C{', '@param a:', ':param a:', '- ', '::', '>>> ', '`', '``', '*', '.. note::', '=====', '@foo ', '\xa0', 'Title\n=====\n\n', LONGH, LONGSUB, INDENTED_FIELD]
+     '*', '|', '_', '<a&"', 'Args:', 'Returns\n-------', '.. note::', '.. code::', '\x00', '\x0b', '\udc80', '\uffff', '\\', '=====', '\xa0', '\r', '@ivar v:',
+     # problems docutils only mentions at INFO level and recovers from
+     'Ti\n==\n\n', '3. w\n\n', '.. _tgt: http://x/\n\n', 'w::\n    lit\n\n']
+T16 = ['Ti\n==\n\n', '3. w\n\n', '.. _tgt: http://x/\n\n', 'w', '\n\n', '\n  ', 'L{', '}', 'C{', '@param a:', ':param a:', '- ', '::', '>>> ', '`', '``', '*', '.. note::', '=====', '@foo ', '\xa0', 'Title\n=====\n\n', LONGH, LONGSUB, INDENTED_FIELD]
 FMTS = ['epytext', 'restructuredtext', 'google', 'numpy', 'plaintext']
 KINDS = ['module', 'class', 'function', 'attribute', 'property', 'inherited']
 SRC = ('"""placeholder"""\nclass K:\n    "placeholder"\n    @property\n    def p(self):\n        "placeholder"\n    attr = 1\n    "placeholder"\n'
@@ -112,6 +114,30 @@ def gave_up(s: Any, obj: Any, fmt: str, doc: str) -> Tuple[bool, bool, str]:
     return False, bool(errs), ''
 
 
+def docutils_problems(text: str) -> List[Tuple[int, str]]:
+    """Reference: what docutils itself says about this reStructuredText (every system message above debug level), with a reader of our own."""
+    import io
+    from docutils.core import publish_doctree
+    from docutils.readers.standalone import Reader as StandaloneReader
+    from docutils.transforms import frontmatter
+    from docutils.utils import new_document
+    got: List[Tuple[int, str]] = []
+
+    class RefReader(StandaloneReader):     # same transform set as a docstring needs: no bibliographic-field transform
+        def get_transforms(self) -> List[Any]:
+            return [t for t in StandaloneReader.get_transforms(self) if t != frontmatter.DocInfo]
+
+        def new_document(self) -> Any:
+            doc = new_document(self.source.source_path, self.settings)
+            doc.reporter.attach_observer(lambda m: got.append((m['level'], m.astext()[:80])))
+            return doc
+    try:
+        publish_doctree(text, reader=RefReader(), settings_overrides={'report_level': 10000, 'halt_level': 10000, 'warning_stream': io.StringIO()})
+    except BaseException:  # noqa
+        return [(5, 'docutils raised')]
+    return got
+
+
 class CaseTimeout(Exception):
     pass
 
@@ -162,6 +188,14 @@ def judge_doc(s: Any, fmt: str, pt: bool, kind: str, doc: str, control: str, res
             res['violations'].append(core.violation(f'recovered-problem-not-reported/{fmt}', f'{fmt} reported problems for {doc!r} when called directly, but nothing is reported against {obj.fullName()}', case))
     else:
         res['outcomes'].add(('ok', fmt))
+    if fmt == 'restructuredtext' and not raised and '\x00' not in (cleaned or ''):
+        # independent reference for "there is a markup problem": docutils itself, asked directly
+        ref = docutils_problems(cleaned or '')
+        if ref and (not reported or not any(m.startswith('m:') for m in msgs)):
+            lvl = {1: 'info', 2: 'warning', 3: 'error', 4: 'severe'}.get(max(l for l, _ in ref), 'raised')
+            res['violations'].append(core.violation(f'docutils-problem-not-reported/{lvl}', f'docutils reports {ref[:3]} for {doc!r}, but nothing is reported against {obj.fullName()}', case))
+        if ref:
+            res['nontrivial'].add(core.h(fmt, cleaned))
     # no other object is affected
     from pydoctor import epydoc2stan
     from pydoctor.stanutils import flatten
@@ -205,8 +239,11 @@ SITES = [
     'pydoctor.epydoc.markup.SummaryExtractor.visit_paragraph', 'pydoctor.epydoc.markup.build_table_of_content',
     'pydoctor.epydoc.markup._types.ParsedTypeDocstring.to_stan', 'pydoctor.epydoc.markup._types.ParsedTypeDocstring.__init__',
     'pydoctor.epydoc.doctest.colorize_doctest', 'pydoctor.epydoc.doctest.colorize_codeblock',
+    # inside docutils itself: a failure of the library is an internal failure of the reST-based parsers
+    'docutils.parsers.rst.Parser.parse', 'docutils.parsers.rst.states.RSTStateMachine.run', 'docutils.transforms.Transformer.apply_transforms',
+    'docutils.readers.Reader.parse', 'docutils.parsers.rst.states.Body.field_marker', 'docutils.parsers.rst.states.Inliner.parse',
 ]
-EXC = ['RuntimeError', 'AssertionError', 'RecursionError', 'KeyError']
+EXC = ['RuntimeError', 'AssertionError', 'RecursionError', 'KeyError', 'ValueError']
 BODY_ONLY = True
 
 
